@@ -216,16 +216,26 @@ pub mod authorizer {
         //@ ensures failed_list: r is Err && r->Err_0 is FailedLogic && (r->Err_0->FailedLogic_0 is Unauthorized || r->Err_0->FailedLogic_0 is NoMatchingPolicy) ==> failed_listed(*old(self), checks_of(r->Err_0))
         //@ loop 0 invariant listed: authz_listed(*old(self), errors@, i as int)
         //@ ghost before "if !successful {" #0 :: let ghost ev0 = errors@;
-        //@ ghost loop 0 end :: proof { if !successful { assert(errors@ =~= ev0.push(errors@[ev0.len() as int])); lemma_push_keeps(ev0, errors@[ev0.len() as int]); if i - 1 <= u32::MAX { assert(has_authz(errors@, (i - 1) as int)); } } }
+        //@ ghost loop 0 end :: proof { if !successful { assert(!authz_check_ok(*old(self), (i - 1) as int)); assert(!all_checks_ok(*old(self))); assert(errors@ =~= ev0.push(errors@[ev0.len() as int])); lemma_push_keeps(ev0, errors@[ev0.len() as int]); if i - 1 <= u32::MAX { assert(has_authz(errors@, (i - 1) as int)); } } }
         //@ loop 2 invariant listed: authz_listed(*old(self), errors@, old(self).authorizer_block_builder.checks@.len() as int) && block_listed(*old(self), errors@, 0, j as int)
         //@ ghost before "if !successful {" #1 :: let ghost ev1 = errors@;
-        //@ ghost loop 2 end :: proof { if !successful { assert(errors@ =~= ev1.push(errors@[ev1.len() as int])); lemma_push_keeps(ev1, errors@[ev1.len() as int]); if j - 1 <= u32::MAX { assert(has_block(errors@, 0, (j - 1) as int)); } } }
+        //@ ghost loop 2 end :: proof { if !successful { assert(!block_check_ok(*old(self), 0, (j - 1) as int)); assert(!all_checks_ok(*old(self))); assert(errors@ =~= ev1.push(errors@[ev1.len() as int])); lemma_push_keeps(ev1, errors@[ev1.len() as int]); if j - 1 <= u32::MAX { assert(has_block(errors@, 0, (j - 1) as int)); } } }
         //@ loop 4 invariant listed: authz_listed(*old(self), errors@, old(self).authorizer_block_builder.checks@.len() as int) && (old(self).blocks is Some ==> block_listed(*old(self), errors@, 0, old(self).blocks->Some_0@[0].checks@.len() as int))
         //@ loop 5 invariant listed: authz_listed(*old(self), errors@, old(self).authorizer_block_builder.checks@.len() as int) && (old(self).blocks is Some ==> block_listed(*old(self), errors@, 0, old(self).blocks->Some_0@[0].checks@.len() as int))
         //@ loop 6 invariant listed: authz_listed(*old(self), errors@, old(self).authorizer_block_builder.checks@.len() as int) && forall|b: int| 0 <= b < i + 1 ==> #[trigger] block_listed(*old(self), errors@, b, blocks@[b].checks@.len() as int)
         //@ loop 7 invariant listed: authz_listed(*old(self), errors@, old(self).authorizer_block_builder.checks@.len() as int) && (forall|b: int| 0 <= b < i + 1 ==> #[trigger] block_listed(*old(self), errors@, b, blocks@[b].checks@.len() as int)) && block_listed(*old(self), errors@, i + 1, j as int)
         //@ ghost before "if !successful {" #2 :: let ghost ev2 = errors@;
-        //@ ghost loop 7 end :: proof { if !successful { assert(errors@ =~= ev2.push(errors@[ev2.len() as int])); lemma_push_keeps(ev2, errors@[ev2.len() as int]); if j - 1 <= u32::MAX && i + 1 <= u32::MAX { assert(has_block(errors@, i + 1, (j - 1) as int)); } }  assert forall|b: int| 0 <= b < i + 1 implies #[trigger] block_listed(*old(self), errors@, b, blocks@[b].checks@.len() as int) by { assert(block_listed(*old(self), ev2, b, blocks@[b].checks@.len() as int)); assert forall|jj: int| 0 <= jj < blocks@[b].checks@.len() && jj <= u32::MAX && b <= u32::MAX && !(#[trigger] block_check_ok(*old(self), b, jj)) implies has_block(errors@, b, jj) by { assert(has_block(ev2, b, jj)); } } }
+        //@ ghost loop 7 end :: proof { if !successful { assert(!block_check_ok(*old(self), i + 1, (j - 1) as int)); assert(!all_checks_ok(*old(self))); assert(errors@ =~= ev2.push(errors@[ev2.len() as int])); lemma_push_keeps(ev2, errors@[ev2.len() as int]); if j - 1 <= u32::MAX && i + 1 <= u32::MAX { assert(has_block(errors@, i + 1, (j - 1) as int)); } }  assert forall|b: int| 0 <= b < i + 1 implies #[trigger] block_listed(*old(self), errors@, b, blocks@[b].checks@.len() as int) by { assert(block_listed(*old(self), ev2, b, blocks@[b].checks@.len() as int)); assert forall|jj: int| 0 <= jj < blocks@[b].checks@.len() && jj <= u32::MAX && b <= u32::MAX && !(#[trigger] block_check_ok(*old(self), b, jj)) implies has_block(errors@, b, jj) by { assert(has_block(ev2, b, jj)); } } }
+        //@ ensures refusal_justified: r is Err && r->Err_0 is FailedLogic && r->Err_0->FailedLogic_0 is Unauthorized && r->Err_0->FailedLogic_0->Unauthorized_policy is Allow ==> !all_checks_ok(*old(self))
+        //@ loop 0 invariant justified: errors@.len() > 0 ==> !all_checks_ok(*old(self))
+        //@ loop 1 invariant justified: errors@.len() > 0 ==> !all_checks_ok(*old(self))
+        //@ loop 2 invariant justified: errors@.len() > 0 ==> !all_checks_ok(*old(self))
+        //@ loop 3 invariant justified: errors@.len() > 0 ==> !all_checks_ok(*old(self))
+        //@ loop 4 invariant justified: errors@.len() > 0 ==> !all_checks_ok(*old(self))
+        //@ loop 5 invariant justified: errors@.len() > 0 ==> !all_checks_ok(*old(self))
+        //@ loop 6 invariant justified: errors@.len() > 0 ==> !all_checks_ok(*old(self))
+        //@ loop 7 invariant justified: errors@.len() > 0 ==> !all_checks_ok(*old(self))
+        //@ loop 8 invariant justified: errors@.len() > 0 ==> !all_checks_ok(*old(self))
         //@end
     }
 }
@@ -372,4 +382,5 @@ pub mod aspec {
 //@canary clock-read-after-break :: token::authorizer::Authorizer::authorize_inner :: let now = Instant::now();\n                if now >= time_limit {\n                    return Err(error::Token::RunLimit(error::RunLimit::Timeout));\n                }\n\n                if res {\n                    match policy.kind {\n                        PolicyKind::Allow => policy_result = Some(Ok(i)),\n                        PolicyKind::Deny => policy_result = Some(Err(i)),\n                    };\n                    break 'policies_test;\n                } ==>> if res {\n                    match policy.kind {\n                        PolicyKind::Allow => policy_result = Some(Ok(i)),\n                        PolicyKind::Deny => policy_result = Some(Err(i)),\n                    };\n                    break 'policies_test;\n                }\n\n                let now = Instant::now();\n                if now >= time_limit {\n                    return Err(error::Token::RunLimit(error::RunLimit::Timeout));\n                }
 //@canary failed-check-wrong-origin :: token::authorizer::Authorizer::authorize_inner :: block_id: 0u32, ==>> block_id: 1u32,
 //@canary failed-check-wrong-index :: token::authorizer::Authorizer::authorize_inner :: block_id: (i + 1) as u32, ==>> block_id: i as u32,
+//@canary refusal-without-failed-check :: token::authorizer::Authorizer::authorize_inner :: (Some(Ok(i)), true) => Ok(i), ==>> (Some(Ok(i)), true) => Err(error::Token::FailedLogic(error::Logic::Unauthorized { policy: error::MatchedPolicy::Allow(i), checks: errors })),
 //@canary-requires token::authorizer::Authorizer::authorize_inner
